@@ -4,6 +4,7 @@ import (
 	"bytes"
 	"encoding/binary"
 	"fmt"
+	"sync"
 	"testing"
 
 	"github.com/xelaj/mtproto/internal/mtproto/messages"
@@ -204,6 +205,43 @@ func TestC03(t *testing.T) {
 		}
 		run.Exhaustive("body lengths 0..N, both directions", n)
 	})
+	t.Run("concurrent", func(t *testing.T) {
+		// the same oracle from several goroutines at once: sending goroutines and the receive loop of a client (and
+		// several clients in one process) seal and open packets concurrently
+		workers, per := 8, run.Pick(1500, 20000)
+		errs := make(chan error, workers)
+		var wg sync.WaitGroup
+		for w := 0; w < workers; w++ {
+			wg.Add(1)
+			go func(w int) {
+				defer wg.Done()
+				for i := 0; i < per; i++ {
+					sd := run.Seed*1000003 + uint64(run.Shard)*7919 + uint64(w)*104729 + uint64(i)
+					l := int(hx.DetU64(sd) % 600)
+					dir := []string{"c2s", "s2c"}[(w+i)%2]
+					c := Case{Dir: dir, Key: hx.Det(sd+1, 256), Salt: int64(hx.DetU64(sd + 2)), Session: int64(hx.DetU64(sd + 3)), MsgID: int64(hx.DetU64(sd+4)) &^ 3,
+						SeqNo: int32(i * 2), Ack: i%2 == 0, Body: hx.Det(sd+5, l), Pad: hx.Det(sd+6, 16)}
+					if dir == "s2c" {
+						c.MsgID |= 1
+					}
+					run.Case(l > 0, evid.Hash("conc", c.Dir, c.Key, c.MsgID, c.Body), "concurrent:"+dir)
+					if err := oracle(c); err != nil {
+						p := run.ViolationNamed(fmt.Sprintf("concurrent-w%d-i%d", w, i), c, "under concurrent use from 8 goroutines: "+err.Error())
+						errs <- fmt.Errorf("violation (replay %s): %v", p, err)
+						return
+					}
+				}
+			}(w)
+		}
+		wg.Wait()
+		close(errs)
+		for err := range errs {
+			t.Errorf("%v", err)
+		}
+	})
+	if t.Failed() {
+		return
+	}
 	t.Run("generated", func(t *testing.T) {
 		rapid.Check(t, func(t *rapid.T) {
 			c := gen(t)
